@@ -31,7 +31,7 @@ EXTRA_MODULES = {
     "C10": ["Proofs.C10", "Proofs.C10Source"],
     "C11": ["Proofs.C11"],
     "C12": ["Proofs.C12", "Proofs.C12Source"],
-    "C14": ["Proofs.C14"],
+    "C14": ["Proofs.C14", "Proofs.C14Source"],
     "C18": ["Proofs.C18"],
     "C19": ["Proofs.C19"],
     "C01": ["Proofs.C01", "Proofs.NoPanic", "Proofs.StdNoPanic", "Proofs.ArrNoPanic"],
